@@ -23,8 +23,17 @@ after the used columns - empty spacers (no cell, formatted-empty cell, empty-str
 notes - plus numeric cells for integer values and the settings sheet placed before the survey sheet.  The
 expectation is unchanged: every setting (= cell under a non-empty header) reaches its own place verbatim, places
 without a setting keep their default, whatever the container and whatever lies in header-less columns.
+Truth-valued settings (cases C11t-*, C11p-t*, C11c-t*): omit_instanceID is the one setting of the statement that is
+read as a yes/no answer, not copied.  XLSForm accepts for such a cell yes / true (no / false) in lower case,
+Capitalised and UPPER CASE (a spreadsheet boolean cell shows as TRUE / FALSE) and the XPath spellings true() / false()
+(TRUTHY / FALSY below, written down from the XLSForm conventions).  Every one of the 14 spellings is exercised alone,
+beside every other setting (column before / after it), with public_key (a true spelling may be rejected there, it may
+not be ignored), in random subsets, as dict / .md / .csv / .xlsx input and in real .xlsx / .xls containers (TRUE /
+FALSE also stored as real boolean cells).  Expectation: a true spelling -> no meta/instanceID node and no bind for
+it; a false spelling or no setting -> the node is there; every other place keeps its own setting / default.
 Not demanded: the place of an attribute::version / attribute::xmlns value when the version / instance_xmlns
-setting itself is absent; root name when both `name` and form_name are given; both default_language sources.
+setting itself is absent; root name when both `name` and form_name are given; both default_language sources;
+anything about an omit_instanceID value that is none of the 14 spellings.
 """
 from __future__ import annotations
 
@@ -54,6 +63,10 @@ STD_PREFIXES = {"h", "ev", "xsd", "jr", "orx", "odk", "entities"}
 RE_NS_SETTING = re.compile(r"""^\s*(?:[A-Za-z_][\w.\-]*=(?:"[^"\s]*"|'[^'\s]*')\s*)+$""")
 RE_NS_PAIR = re.compile(r"""([A-Za-z_][\w.\-]*)=(?:"([^"\s]*)"|'([^'\s]*)')""")
 SETTINGS_AS_TYPE = {"form_title", "set_form_title", "form_id", "set_form_id", "prefix"}
+# accepted spellings of a yes/no cell (XLSForm conventions; independent of the converter's tables)
+TRUTH_SETTINGS = ("omit_instanceID",)     # the settings the statement describes as a yes/no switch
+TRUTHY = tuple(f(w) for w in ("yes", "true") for f in (str.lower, str.capitalize, str.upper)) + ("true()",)
+FALSY = tuple(f(w) for w in ("no", "false") for f in (str.lower, str.capitalize, str.upper)) + ("false()",)
 
 FILE_STEMS = ["household.v2", "2024.06.baseline-survey", "a.b.c.d", "plain", "with space", "UPPER.Case.Name",
               "dots..twice", "v1.0", "x.xlsx.backup", "survey.final.FINAL"]
@@ -177,12 +190,16 @@ def check_output(s: dict, kwargs: dict, xform: str, fallback: str, how: str) -> 
     metas = [c for c in root if XForm.local(c.tag) == "meta"]
     meta_names = [XForm.local(c.tag) for c in metas[0]] if metas else []
     omit = s["omit_instanceID"]
-    if omit is None or omit in corpus.SV_NO:
+    binds = {b.get("nodeset"): b for b in x.binds()}
+    if omit is None or omit in FALSY:
         if "instanceID" not in meta_names:
             out.append(V("instanceID:missing", f"[{how}] meta/instanceID is missing (omit_instanceID={omit!r})"))
-    elif omit in corpus.SV_YES and "instanceID" in meta_names:
-        out.append(V("instanceID:not-omitted", f"[{how}] omit_instanceID={omit!r} but meta/instanceID is present"))
-    binds = {b.get("nodeset"): b for b in x.binds()}
+    elif omit in TRUTHY:
+        if "instanceID" in meta_names:
+            out.append(V("instanceID:not-omitted", f"[{how}] omit_instanceID={omit!r} but meta/instanceID is present"))
+        elif f"/{rootname}/meta/instanceID" in binds:
+            out.append(V("instanceID:bind-not-omitted", f"[{how}] omit_instanceID={omit!r}: the node is gone but a bind "
+                                                        f"for /{rootname}/meta/instanceID is left"))
     iname_bind = binds.get(f"/{rootname}/meta/instanceName")
     if s["instance_name"] is not None:
         if "instanceName" not in meta_names or iname_bind is None:
@@ -254,12 +271,28 @@ EMPTIES = ("absent", "styled", "blank")
 PLANS: dict = {}   # case name -> {"deliveries": [...], "typed": bool, "empties": str}; filled by cases()
 
 
+def _bool_cells(wb: WB) -> WB:
+    """The same workbook with the TRUE / FALSE texts of truth-valued settings held as boolean cells (what a
+    spreadsheet program stores when the author types TRUE); every other cell is untouched."""
+    out = WB()
+    for name, (headers, rows) in wb.items():
+        rows = [list(r) for r in rows]
+        if str(name).lower() == "settings":
+            for r in rows:
+                for i, h in enumerate(headers):
+                    if h in TRUTH_SETTINGS and i < len(r) and r[i] in ("TRUE", "FALSE"):
+                        r[i] = r[i] == "TRUE"
+        out[name] = (list(headers), rows)
+    return out
+
+
 def _check_containers(case: Case, wb: WB, s: dict, plan: dict) -> list[dict]:
     """Write the source workbook into real .xlsx/.xlsm/.xls containers and check each conversion against the same
     expectation `s` (which was read from the cells under non-empty headers only)."""
     out = []
     kw = {k: v for k, v in case.kwargs.items() if k != "_source"}
     typed, empties = plan["typed"], plan["empties"]
+    file_wb = _bool_cells(wb) if plan.get("boolcells") else wb
     h = zlib.crc32(case.name.encode("utf-8"))
     blobs, tmp, opened = {}, None, []
     try:
@@ -267,7 +300,7 @@ def _check_containers(case: Case, wb: WB, s: dict, plan: dict) -> list[dict]:
             kind = "xls" if ext == "xls" else "xlsx"
             if kind not in blobs:
                 try:
-                    blobs[kind] = (corpus.c11_wb_to_xls if kind == "xls" else corpus.c11_wb_to_xlsx)(wb, typed, empties)
+                    blobs[kind] = (corpus.c11_wb_to_xls if kind == "xls" else corpus.c11_wb_to_xlsx)(file_wb, typed, empties)
                 except ValueError:      # not representable in that container (size limits of the writer)
                     blobs[kind] = None
             data = blobs[kind]
@@ -289,7 +322,8 @@ def _check_containers(case: Case, wb: WB, s: dict, plan: dict) -> list[dict]:
                     opened.append(src)
                 else:
                     src, fallback = (str(p) if mode == "path-str" else p), stem
-            how = f"{ext} container as {mode}, empty cells {empties}{', numeric cells' if typed else ''}"
+            how = (f"{ext} container as {mode}, empty cells {empties}{', numeric cells' if typed else ''}"
+                   f"{', boolean cells' if plan.get('boolcells') else ''}")
             r2 = corpus.convert_case(Case(case.name, wb=wb, kwargs=kw), _source=src, file_type=file_type)
             if not r2.ok or r2.xform is None:
                 key = "container-input-crash" if r2.internal_error else "container-input-rejected"
@@ -541,4 +575,78 @@ def cases(tier: str, seed: int) -> list[Case]:
         noise = [(rc.randrange(len(keys) + 2), rc.choice(NOISE_KINDS)) for _ in range(rc.choice([0, 1, 1, 2, 3]))]
         addc(chosen, noise=noise, spelling={k: rc.choice(SPELLINGS[k]) for k in SPELLINGS}, shuffle=True, kwargs=kwargs,
              lang=rc.random() < 0.3, both_ids=rc.random() < 0.05)
+    # 6. truth-valued settings in every accepted spelling (own random stream and own case names: everything above
+    #    is the same as before).  _case() is given the value under a key it does not rewrite.
+    rt = random.Random(seed * 49979687 + 1117)
+    nt = [0]
+    others = [k for k in ORDER if k not in TRUTH_SETTINGS]
+
+    def addt(chosen, truth: dict, first=False, path=False, container=None, noise=None, **kw):
+        """`truth` {setting: spelling} is put into the settings row as it is (no rewriting), as first / last column
+        or (shuffle) anywhere."""
+        nt[0] += 1
+        name = f"{'C11c' if container else 'C11p' if path else 'C11'}-t{nt[0]}"
+        c = _case(name, {k: v for k, v in chosen.items() if k not in TRUTH_SETTINGS} or {"title": VALUES["title"][1]},
+                  rt, noise=None, **kw)
+        headers, rows = c.wb["settings"]
+        for k, v in truth.items():
+            at = 0 if first else (rt.randrange(len(headers) + 1) if kw.get("shuffle") else len(headers))
+            headers.insert(at, k)
+            rows[0].insert(at, v)
+        for pos, cells in sorted(noise or [], key=lambda pc: -pc[0]):
+            pos = min(pos, len(headers))
+            headers[pos:pos] = [None] * len(cells)
+            rows[0][pos:pos] = list(cells)
+        out.append(c)
+        if container:
+            h = zlib.crc32(name.encode("utf-8"))
+            if tier == "thorough" and nt[0] % 4 == 1:
+                deliveries = [*XLSX_DELIVERIES, *XLS_DELIVERIES]
+            else:
+                deliveries = [XLSX_DELIVERIES[h % len(XLSX_DELIVERIES)], XLS_DELIVERIES[(h >> 3) % len(XLS_DELIVERIES)]]
+            PLANS[name] = {"deliveries": deliveries, "typed": bool((h >> 7) & 1), "empties": EMPTIES[(h >> 9) % 3],
+                           "boolcells": container == "bool"}
+
+    for setting in TRUTH_SETTINGS:
+        spellings = [*TRUTHY, *FALSY]
+        # 6a. the setting alone (beside a title), every spelling: dict input and by path (.md / .csv / .xlsx)
+        for v in spellings:
+            addt({}, {setting: v}, path=True)
+            addt({"id": VALUES["id"][0]}, {setting: v}, first=True, path=True)
+        # 6b. every spelling beside every other setting, the truth column before / after it
+        for i, v in enumerate(spellings):
+            for j, k in enumerate(others):
+                if k == "public_key":
+                    continue
+                addt({k: VALUES[k][0]}, {setting: v}, first=bool((i + j) % 2), path=((i + j) % 7 == 0))
+        # 6c. with public_key: a true spelling cannot be honoured (the form may be rejected), a false one must be
+        for v in spellings:
+            addt({"public_key": VALUES["public_key"][0], "submission_url": VALUES["submission_url"][1]}, {setting: v},
+                 first=(v in FALSY))
+        # 6d. real containers: every spelling as a text cell with layout noise around it; TRUE / FALSE as boolean cells
+        for i, v in enumerate(spellings):
+            addt(five, {setting: v}, container="text", noise=[(i % 7, NOISE_KINDS[i % len(NOISE_KINDS)])])
+            addt({}, {setting: v}, container="text", first=True, noise=[((i + 1) % 3, NOISE_KINDS[(i + 2) % len(NOISE_KINDS)])])
+        for v in ("TRUE", "FALSE"):
+            addt({}, {setting: v}, container="bool")
+            addt(five, {setting: v}, container="bool", first=True)
+            addt({k: x for k, x in base.items() if k != "public_key"}, {setting: v}, container="bool",
+                 noise=[(2, [NOTES[0]]), (5, [None])])
+        # 6e. random subsets / values / alias spellings / column orders, random truth spelling
+        for i in range({"quick": 80, "thorough": 1500}[tier]):
+            v = spellings[i % len(spellings)] if i < 2 * len(spellings) else rt.choice(spellings)
+            keys = [k for k in others if rt.random() < rt.choice([0.15, 0.35, 0.6])]
+            if v in TRUTHY and "public_key" in keys:
+                keys.remove("public_key")           # that combination is family 6c
+            chosen = {k: rt.choice(VALUES[k]) for k in keys}
+            kwargs = {}
+            if rt.random() < 0.15:
+                kwargs["form_name"] = rt.choice(["argroot", "Root_2"])
+            if rt.random() < 0.1:
+                kwargs["default_language"] = rt.choice(VALUES["default_language"])
+            container = rt.choice([None, None, None, "text", "bool" if v in ("TRUE", "FALSE") else "text"])
+            noise = [(rt.randrange(len(keys) + 2), rt.choice(NOISE_KINDS)) for _ in range(rt.choice([0, 1, 2]))]
+            addt(chosen, {setting: v}, path=(rt.random() < 0.3), container=container, noise=noise if container else None,
+                 spelling={k: rt.choice(SPELLINGS[k]) for k in SPELLINGS}, shuffle=True, kwargs=kwargs,
+                 lang=rt.random() < 0.3)
     return out
